@@ -894,12 +894,12 @@ class ServiceDiscover:
     ) -> None:
         self.watched_services[service].add(listener)
 
-        for addr, services in self.found_services.store.items():
-            for s in services:
+        # replay immediately (a deferred replay could be overtaken by a newer
+        # notification about the same service)
+        for addr, services in list(self.found_services.store.items()):
+            for s in list(services):
                 if service.matches_service(s):
-                    asyncio.get_event_loop().call_soon(
-                        listener.service_offered, s, addr
-                    )
+                    listener.service_offered(s, addr)
 
     def stop_watch_service(
         self, service: someip.config.Service, listener: ClientServiceListener
@@ -907,27 +907,25 @@ class ServiceDiscover:
         self.watched_services[service].remove(listener)
 
         # TODO verify if this makes sense
-        for addr, services in self.found_services.store.items():
-            for s in services:
+        for addr, services in list(self.found_services.store.items()):
+            for s in list(services):
                 if service.matches_service(s):
-                    asyncio.get_event_loop().call_soon(
-                        listener.service_stopped, s, addr
-                    )
+                    listener.service_stopped(s, addr)
 
     def watch_all_services(self, listener: ClientServiceListener) -> None:
         self.watcher_all_services.add(listener)
 
-        for addr, services in self.found_services.store.items():
-            for s in services:
-                asyncio.get_event_loop().call_soon(listener.service_offered, s, addr)
+        for addr, services in list(self.found_services.store.items()):
+            for s in list(services):
+                listener.service_offered(s, addr)
 
     def stop_watch_all_services(self, listener: ClientServiceListener) -> None:
         self.watcher_all_services.remove(listener)
 
         # TODO verify if this makes sense
-        for addr, services in self.found_services.store.items():
-            for s in services:
-                asyncio.get_event_loop().call_soon(listener.service_stopped, s, addr)
+        for addr, services in list(self.found_services.store.items()):
+            for s in list(services):
+                listener.service_stopped(s, addr)
 
     def find_subscribe_eventgroup(self, eventgroup: someip.config.Eventgroup):
         self.watch_service(
